@@ -26,6 +26,7 @@ type DeclScn struct {
 	ID     int         `json:"id"`
 	Fields []FieldSpec `json:"fields"`
 	Tags   []string    `json:"tags"`
+	Repeat int         `json:"repeat"`
 	Obs    *DeclObs    `json:"obs,omitempty"`
 }
 
@@ -87,6 +88,7 @@ type DeclObs struct {
 	Cmds     []MCmd   `json:"cmds"`
 	Args     []MArg   `json:"args"`
 	ArgsReq  bool     `json:"argsReq"`
+	Distinct int      `json:"distinct"`
 }
 
 var declTypes = map[string]reflect.Type{
@@ -179,6 +181,18 @@ func init() {
 				die(2, "decl scenario: %v", err)
 			}
 			sc.Obs = runDecl(sc)
+			sc.Obs.Distinct = 1
+			if sc.Repeat > 1 {
+				first, _ := json.Marshal(sc.Obs)
+				seen := map[string]bool{string(first): true}
+				for i := 1; i < sc.Repeat; i++ {
+					o := runDecl(sc)
+					o.Distinct = 1
+					j, _ := json.Marshal(o)
+					seen[string(j)] = true
+				}
+				sc.Obs.Distinct = len(seen)
+			}
 			return sc
 		},
 		crash: func(line []byte, timeout bool, msg string) any {
